@@ -16,7 +16,7 @@ SLOW = 10.0          # seconds for one decode call; generous: the check itself l
 
 OBL = '''From Coq Require Import ZArith List Bool Lia.
 Require Import PyIR.Base.Result PyIR.Engine.Parse PyIR.Engine.NoCrash PyIR.Engine.ParseM PyIR.Engine.ParseMProps PyIR.Proto.Descriptor PyIR.Proto.RoundTrip
-               PyIR.Ctl.Instance PyIR.Ctl.NoCrash.
+               PyIR.Engine.ParseMD PyIR.Engine.ParseMDProps PyIR.Engine.ParseHT PyIR.Engine.ParseHTProps PyIR.Ctl.Instance PyIR.Ctl.NoCrash.
 Require Import Gen.Tables.
 Import ListNotations.
 Open Scope Z_scope.
@@ -26,6 +26,30 @@ Open Scope Z_scope.
 def gen_obligation(e):
     p = e['p']
     name = p['name']
+    if engine.modelled_MD(p):
+        md = p['middle'][0]
+        return OBL + '''
+(* %s: Manchester table with one positional middle-timing entry (the RC6 toggle bit).  The engine part of decode(): CodeWrapper on
+   the class tables, for every input list *)
+Definition md_%s : mdict := {| md_start := %s; md_stop := %s; md_bursts := %s |}.
+Theorem C08_%s : exists t, as_pairs (d_bursts D_%s) = Some t /\\
+  forall frame, is_pyerr (parseMD 20 (d_lead_in D_%s) (d_lead_out D_%s) t md_%s frame) = false.
+Proof.
+  eexists. split; [reflexivity|]. intros frame. apply parseMD_no_pyerr. vm_compute. lia.
+Qed.
+Print Assumptions C08_%s.
+''' % (name, name, vlib.z(md['start']), vlib.z(md['stop']), engine.coq_ptable(md['bursts']), name, name, name, name, name, name), None
+    if engine.modelled_HT(p):
+        return OBL + '''
+(* %s: halfbit table with (mark, space) middle timings.  The engine part of decode(): CodeWrapper on the class tables, for every
+   input list *)
+Theorem C08_%s : exists t, as_pairs (d_bursts D_%s) = Some t /\\
+  forall frame, is_pyerr (parseHT 20 (d_lead_in D_%s) (d_lead_out D_%s) %s t frame) = false.
+Proof.
+  eexists. split; [reflexivity|]. intros frame. apply parseHT_no_pyerr.
+Qed.
+Print Assumptions C08_%s.
+''' % (name, name, name, name, name, engine.coq_ptable(p['middle']), name), None
     if not engine.modelled_C(p):
         return None, 'engine class %s%s not in the proved fragment' % (p['eclass'], ' with middle timings' if p['middle'] else '')
     if not all(len(b) == 2 for b in p['bursts']) or not all(len(b) == 2 for b in p['rep_bursts']):
@@ -350,6 +374,31 @@ def run(ctx):
                 if p['rep_lead_in'] or p['rep_lead_out']:
                     if ctx.rng.random() < 0.3:
                         items.append((p, data, 20, True, kind))
+    # the two engine models with middle timings (RC6 family: positional entry; halfbit tables with (mark, space) tuples)
+    md_items, ht_items = [], []
+    for p in modelled:
+        if not (engine.modelled_MD(p) or engine.modelled_HT(p)):
+            continue
+        own = valid.get(p['name'], [])
+        cand = [(kind, data) for kind, data in malformed_inputs(ctx.rng, (own * 3 + ctx.rng.sample(allvalid, 6)) if own else allvalid,
+                                                                 14 if quick else 120) if len(data) <= 300]
+        cand += [('valid', list(f)) for f in own[:4]]
+        for f in own[:2]:
+            cand += [(k, g) for k, g in damaged_frames(f)][:: (7 if quick else 1)]
+            for pat in ('long', 'short', 'alt', 'random'):
+                cand.append(('perturbed-' + pat, gen_inputs.perturb(list(f), 20, pat, ctx.rng)))
+        for kind, data in cand:
+            (md_items if engine.modelled_MD(p) else ht_items).append((p, data, ctx.rng.choice([20, 20, 10, 5]), kind))
+    items = [it for it in items if not (engine.modelled_MD(it[0]) or engine.modelled_HT(it[0]))]
+    for nm, its, fn in (('parseMD', md_items, engine.corr_parseMD), ('parseHT', ht_items, engine.corr_parseHT)):
+        mb = fn(ctx, its, name='corr_%s_malformed' % nm) if its else []
+        if mb is None:
+            ctx.report('correspondence', 'model-eval-failed', {}, dict(theorem='PyIR.Engine.%s evaluation' % nm), found_input=False)
+            mb = []
+        for (p, code, tol, tag), impl, model in mb:
+            ctx.report(p['name'], 'parse-model-disagrees', dict(tag=tag), dict(protocol=p['name'], frame=code, tolerance=tol,
+                                                                                   impl=impl[:60], model=model[:60]))
+        ctx.extra.setdefault('correspondence_middle', {})[nm] = dict(cases=len(its), disagreements=len(mb))
     bad = engine.corr_parseH(ctx, items, name='corr_parse_malformed')
     if bad is None:
         ctx.report('correspondence', 'model-eval-failed', {}, dict(theorem='PyIR.Engine.Parse evaluation'), found_input=False)
